@@ -2,6 +2,7 @@
 //!   init-run     --in schedules.ndjson --out trace.ndjson --res results.ndjson
 //!   init-random  --mode c27|c28|c29 --seed N --runs R --events E --peers P [--snap 1] --out trace.ndjson
 //!   resp-random  --seed N --runs R --events E --peers P --out trace.ndjson
+//!   resp-run     --in schedules.ndjson --out trace.ndjson
 mod initiator;
 mod msgs;
 mod responder;
@@ -12,6 +13,7 @@ fn main() {
         "init-run" => initiator::run_schedules(&args),
         "init-random" => initiator::random_runs(&args),
         "resp-random" => responder::random_runs(&args),
+        "resp-run" => responder::run_schedules(&args),
         other => pv_core::die(&format!("unknown sub-command {other}")),
     }
 }
